@@ -103,6 +103,7 @@ func cmdFn(args []string) int {
 	dump := fs.Bool("dump", false, "dump SSA")
 	keep := fs.String("work", "", "work dir")
 	doReplay := fs.Bool("replay", false, "replay models of failed obligations on the real code")
+	key := fs.Int64("key", -1, "table contracts: only this key")
 	fs.Parse(args)
 	rest := fs.Args()
 	if len(rest) < 1 {
@@ -128,6 +129,21 @@ func cmdFn(args []string) int {
 		fmt.Println("contract error:", e)
 	}
 	fc := db.ByName[name]
+	if fc != nil && fc.IsTable {
+		if *key >= 0 {
+			fc.Keys = []int64{*key}
+		}
+		insts, err := ExpandTable(p, db, fc)
+		if err != nil {
+			fmt.Fprintln(os.Stderr, err)
+			return 2
+		}
+		rc := 0
+		for _, in := range insts {
+			rc |= runOne(p, db, in, *verbose, *timeout, *keep, *doReplay, *dump, t0)
+		}
+		return rc
+	}
 	if fc == nil {
 		fn := p.FindFunc(name)
 		if fn == nil {
@@ -136,21 +152,25 @@ func cmdFn(args []string) int {
 		}
 		fc = &FnContract{Name: name, Fn: fn, Opts: map[string]string{}}
 	}
-	if *dump && fc.Fn != nil {
+	return runOne(p, db, fc, *verbose, *timeout, *keep, *doReplay, *dump, t0)
+}
+
+func runOne(p *Program, db *ContractDB, fc *FnContract, verbose bool, timeout int, keep string, doReplay, dump bool, t0 time.Time) int {
+	if dump && fc.Fn != nil {
 		fc.Fn.WriteTo(os.Stdout)
 	}
 	r := VerifyFunction(p, db, fc)
 	if r.Err != nil {
 		fmt.Println("TOOL-LIMIT:", r.Err)
 	}
-	work := *keep
+	work := keep
 	if work == "" {
 		work, _ = os.MkdirTemp("", "govc")
 		defer os.RemoveAll(work)
 	}
-	stats, st, _ := Discharge([]*FnResult{r}, DischargeOpts{Timeout: time.Duration(*timeout) * time.Second, Workers: runtime.NumCPU(), WorkDir: work})
+	stats, st, _ := Discharge([]*FnResult{r}, DischargeOpts{Timeout: time.Duration(timeout) * time.Second, Workers: runtime.NumCPU(), WorkDir: work})
 	for _, o := range r.Obls {
-		if *verbose || o.Status != "discharged" {
+		if verbose || o.Status != "discharged" {
 			fmt.Printf("%-11s %-9s %-60s %s (%.2fs, %d inst)\n", o.Status, o.Kind, o.Name, o.Solver, o.Seconds, len(o.Instances))
 			if o.Status != "discharged" {
 				fmt.Printf("     %s\n", o.Detail)
@@ -158,18 +178,21 @@ func cmdFn(args []string) int {
 					fmt.Printf("     note: %s\n", o.Instances[0].Note)
 				}
 				fmt.Printf("     %s\n", firstLines(o.Model, 12))
-				if *doReplay && o.Status == "failed" && o.ModelVals != nil {
+				if doReplay && o.Status == "failed" && o.ModelVals != nil {
 					ro := BuildReplay("_fn", r, o)
 					fmt.Printf("     replay: ran=%v confirmed=%v file=%s\n", ro.Ran, ro.Confirmed, ro.Path)
 				}
 			}
 		}
 	}
-	fmt.Printf("%s: %d obligations %v solver %.1fs feas-calls %d total %.1fs\n", name, len(r.Obls), stats, st, r.FeasCalls, time.Since(t0).Seconds())
+	fmt.Printf("%s: %d obligations %v solver %.1fs feas-calls %d total %.1fs\n", fc.Name, len(r.Obls), stats, st, r.FeasCalls, time.Since(t0).Seconds())
 	if r.Ctx != nil {
 		for _, n := range r.Ctx.SortedNotes() {
 			fmt.Println("  note:", n)
 		}
+	}
+	if r.Err != nil || stats["failed"]+stats["undecided"] > 0 {
+		return 1
 	}
 	return 0
 }
@@ -221,22 +244,38 @@ func cmdCheck(args []string) int {
 	db := LoadContracts(p)
 	var results []*FnResult
 	var names []string
+	var fcs []*FnContract
+	var tableErrs []string
 	for _, fc := range db.Order {
-		if fc.HasProp(prop) {
-			names = append(names, fc.Name)
+		if !fc.HasProp(prop) {
+			continue
 		}
+		if fc.IsTable {
+			insts, err := ExpandTable(p, db, fc)
+			if err != nil {
+				tableErrs = append(tableErrs, err.Error())
+				continue
+			}
+			for _, in := range insts {
+				names = append(names, in.Name)
+				fcs = append(fcs, in)
+			}
+			continue
+		}
+		names = append(names, fc.Name)
+		fcs = append(fcs, fc)
 	}
 	// verify functions in parallel (each has its own Ctx)
 	results = make([]*FnResult, len(names))
 	sem := make(chan struct{}, 8)
 	done := make(chan int, len(names))
-	for i, n := range names {
-		go func(i int, n string) {
+	for i := range names {
+		go func(i int) {
 			sem <- struct{}{}
-			results[i] = VerifyFunction(p, db, db.ByName[n])
+			results[i] = VerifyFunction(p, db, fcs[i])
 			<-sem
 			done <- i
-		}(i, n)
+		}(i)
 	}
 	for range names {
 		<-done
@@ -294,6 +333,9 @@ func cmdCheck(args []string) int {
 	for _, e := range db.Errors {
 		// contract file problems are failures of the check for every property
 		report("contracts#parse", "tool-limit", e, "")
+	}
+	for _, e := range tableErrs {
+		report("contracts#table", "tool-limit", e, "")
 	}
 	if len(names) == 0 && len(cfg.Lemmas) == 0 {
 		report("contracts#none", "tool-limit", "no function under contract for this property (vacuous check)", "")
